@@ -15,16 +15,40 @@ package main
 
 import (
 	"fmt"
+	"os"
 	"regexp"
 	"runtime"
 	"sort"
 	"strconv"
 	"strings"
 	"sync"
+	"sync/atomic"
 	"time"
 
 	"github.com/0chain/common/core/statecache"
 )
+
+// every wait of the two schedulers (hook-driven and Clone-driven) is bounded by schedTO(): 10 s, raised to 60 s for the
+// last attempt of a schedule that could not be driven before (a loaded machine must not turn into a false alarm; a
+// deadlock of the code under a schedule persists through all attempts and is reported)
+var c08SchedTO atomic.Int64
+
+func schedTO() time.Duration {
+	if v := c08SchedTO.Load(); v > 0 {
+		return time.Duration(v)
+	}
+	return c08SchedDefault
+}
+
+// VERIF_SCHED_TO_MS shortens the default wait (self-test of the retry path: with 1 ms most first attempts time out)
+var c08SchedDefault = func() time.Duration {
+	if ms, err := strconv.Atoi(os.Getenv("VERIF_SCHED_TO_MS")); err == nil && ms > 0 {
+		return time.Duration(ms) * time.Millisecond
+	}
+	return 10 * time.Second
+}()
+
+const schedAttempts = 3
 
 var c08GoidRe = regexp.MustCompile(`^goroutine (\d+) `)
 
@@ -113,7 +137,7 @@ func (s *tsSched) note(e tsEvt) {
 // settle waits until thread t is parked at a Clone, finished, or blocked on a mutex
 func (s *tsSched) settle(t int) bool {
 	th := s.th[t]
-	deadline := time.Now().Add(3 * time.Second)
+	deadline := time.Now().Add(schedTO() / 2)
 	for i := 0; ; i++ {
 		select {
 		case e := <-s.events:
@@ -129,7 +153,7 @@ func (s *tsSched) settle(t int) bool {
 			return true
 		}
 		if time.Now().After(deadline) {
-			s.err = fmt.Sprintf("thread %s neither reached a Clone, nor returned, nor blocked on a mutex within 3s", th.name)
+			s.err = fmt.Sprintf("thread %s neither reached a Clone, nor returned, nor blocked on a mutex within %s", th.name, schedTO()/2)
 			return false
 		}
 		runtime.Gosched()
@@ -155,14 +179,19 @@ func (s *tsSched) step(t int) bool {
 			th.result = r
 			s.events <- tsEvt{t: t, done: true}
 		}()
-		th.goid = <-idCh
+		select {
+		case th.goid = <-idCh:
+		case <-time.After(schedTO()):
+			s.err = fmt.Sprintf("the goroutine of thread %s did not start", th.name)
+			return false
+		}
 		th.state = tsBlocked // until settled
 	case tsParked:
 		s.trace = append(s.trace, fmt.Sprintf("%d:%s", t, th.point))
 		th.state = tsBlocked
 		select {
 		case s.resume[t] <- struct{}{}:
-		case <-time.After(10 * time.Second):
+		case <-time.After(schedTO()):
 			s.err = fmt.Sprintf("thread %s was taken to be parked at %s but does not accept its release", th.name, th.point)
 			return false
 		}
@@ -277,20 +306,24 @@ func tsOut(v statecache.Value, ok bool) string {
 	return "hit " + scValTok(v)
 }
 
-func runTxnSched(op string, res *CaseResult) string {
-	f := strings.Fields(op)
-	if len(f) != 4 {
-		panic("malformed op: " + op)
-	}
-	nKeys, _ := strconv.Atoi(f[1])
-	w := tsSetup(nKeys)
-	threads := []*tsThread{{name: "tcommit", body: func() string { w.tc.Commit(); return "ok" }}}
-	type rd struct{ kind, key string }
-	var rds []rd
-	for _, p := range strings.Split(f[2], ",") {
+type tsRd struct{ kind, key string }
+
+func tsParseReaders(spec string) []tsRd {
+	var rds []tsRd
+	for _, p := range strings.Split(spec, ",") {
 		kv := strings.SplitN(p, ":", 2)
-		r := rd{kv[0], kv[1]}
-		rds = append(rds, r)
+		if len(kv) != 2 {
+			panic("malformed reader: " + spec)
+		}
+		rds = append(rds, tsRd{kv[0], kv[1]})
+	}
+	return rds
+}
+
+func tsThreads(w *tsWorld, rds []tsRd) []*tsThread {
+	threads := []*tsThread{{name: "tcommit", body: func() string { w.tc.Commit(); return "ok" }}}
+	for _, r := range rds {
+		r := r
 		var body func() string
 		switch r.kind {
 		case "tget":
@@ -302,16 +335,52 @@ func runTxnSched(op string, res *CaseResult) string {
 		case "qget":
 			body = func() string { return tsOut(statecache.NewQueryBlockCache(w.sc, "B").Get(r.key)) }
 		default:
-			panic("malformed op: " + op)
+			panic("malformed reader kind: " + r.kind)
 		}
-		threads = append(threads, &tsThread{name: p, body: body})
+		threads = append(threads, &tsThread{name: r.kind + ":" + r.key, body: body})
 	}
-	s := tsRun(threads, f[3])
+	return threads
+}
+
+// tsDrive runs one schedule on fresh caches. A run that ends in a scheduler error (a wait that timed out) is abandoned —
+// its goroutines are leaked — and the schedule is driven again, the last time with all waits raised to 60 s; only an
+// error that persists through all attempts is kept (then the code hangs under that schedule).
+func tsDrive(nKeys int, rds []tsRd, sched string) (w *tsWorld, threads []*tsThread, s *tsSched, retries int) {
+	for attempt := 1; ; attempt++ {
+		if attempt == schedAttempts {
+			c08SchedTO.Store(int64(60 * time.Second))
+		}
+		w = tsSetup(nKeys)
+		threads = tsThreads(w, rds)
+		s = tsRun(threads, sched)
+		c08SchedTO.Store(0)
+		if s.err == "" {
+			return
+		}
+		if attempt == schedAttempts {
+			s.err = fmt.Sprintf("schedule could not be driven: %s, %d attempts", s.err, schedAttempts)
+			return
+		}
+		retries++
+	}
+}
+
+func runTxnSched(op string, res *CaseResult) string {
+	f := strings.Fields(op)
+	if len(f) != 4 {
+		panic("malformed op: " + op)
+	}
+	nKeys, _ := strconv.Atoi(f[1])
+	rds := tsParseReaders(f[2])
+	w, threads, s, retries := tsDrive(nKeys, rds, f[3])
+	for i := 0; i < retries; i++ {
+		res.Tags = append(res.Tags, "sched_retry")
+	}
 	fail := func(format string, a ...interface{}) {
 		res.Fails = append(res.Fails, fmt.Sprintf("op (%s) [trace %s]: ", op, strings.Join(s.trace, " "))+fmt.Sprintf(format, a...))
 	}
 	if s.err != "" {
-		fail("harness: %s", s.err)
+		fail("%s", s.err)
 		return "error"
 	}
 	var outs []string
@@ -416,33 +485,16 @@ func orDash(s string) string {
 	return s
 }
 
-// tsProbe runs the op once and returns the decisions taken
+// tsProbe runs the op once (with the retry policy of tsDrive) and returns the decisions taken
 func tsProbe(op string) []tsStep {
 	f := strings.Fields(op)
 	nKeys, _ := strconv.Atoi(f[1])
-	w := tsSetup(nKeys)
-	threads := []*tsThread{{name: "tcommit", body: func() string { w.tc.Commit(); return "ok" }}}
-	for _, p := range strings.Split(f[2], ",") {
-		kv := strings.SplitN(p, ":", 2)
-		kind, key := kv[0], kv[1]
-		var body func() string
-		switch kind {
-		case "tget":
-			body = func() string { return tsOut(w.tc.Get(key)) }
-		case "bget":
-			body = func() string { return tsOut(w.bc.Get(key)) }
-		case "sget":
-			body = func() string { return tsOut(w.sc.Get(key, "B")) }
-		default:
-			body = func() string { return tsOut(statecache.NewQueryBlockCache(w.sc, "B").Get(key)) }
-		}
-		threads = append(threads, &tsThread{name: p, body: body})
-	}
 	sched := ""
 	if len(f) > 3 && f[3] != "-" {
 		sched = f[3]
 	}
-	return tsRun(threads, sched).steps
+	_, _, s, _ := tsDrive(nKeys, tsParseReaders(f[2]), sched)
+	return s.steps
 }
 
 func exhC08Txn(tier string, emit func([]string)) {
